@@ -778,7 +778,13 @@ impl<'a> Socket<'a> {
         let next_ack = self.remote_seq_no + self.rx_buffer.len();
 
         let last_win = (self.remote_last_win as usize) << self.remote_win_shift;
-        let last_win_adjusted = last_ack + last_win - next_ack;
+        let last_win_end = last_ack + last_win;
+        if last_win_end < next_ack {
+            // No window has been advertised yet (simultaneous open: a SYN was received
+            // before our own SYN could be sent), so nothing of it is left either.
+            return Some(0);
+        }
+        let last_win_adjusted = last_win_end - next_ack;
 
         Some(u16::try_from(last_win_adjusted >> self.remote_win_shift).unwrap_or(u16::MAX))
     }
